@@ -25,13 +25,13 @@ SEMANTIC = (
     ('could not prove termination', 'decreases'),
     ('safe api', 'other'),
 )
-RESOURCE = ('resource limit', 'rlimit', 'timed out', 'timeout')
+RESOURCE = (r'\bresource limit\b', r'\brlimit\b', r'\btimed out\b', r'\bsolver timeout\b', r'\bquery timeout\b')
 
 
 def classify(msg):
     low = msg.lower()
     for k in RESOURCE:
-        if k in low:
+        if re.search(k, low):
             return 'resource'
     for pat, kind in SEMANTIC:
         if pat in low:
@@ -83,7 +83,9 @@ def run(path, rlimit=None, seed=None, extra=(), timeout=1800, threads=None):
         if lvl == 'error':
             if msg.startswith('aborting due to'):
                 continue
-            kind = classify(msg)
+            # a rustc diagnostic (it carries an error code: E0428, E0425, ...) is never a verification verdict, whatever words its message
+            # contains (identifiers such as CONN_TIMEOUT_MS once matched the resource-limit pattern): front-end error
+            kind = None if d.get('code') else classify(msg)
             spans = [dict(l0=s['line_start'], l1=s['line_end'], c0=s['column_start'], primary=s['is_primary'], label=s.get('label'), file=s.get('file_name', ''),
                           text=(s.get('text') or [{}])[0].get('text', '').strip() if s.get('text') else '')
                      for s in d.get('spans', [])]
@@ -101,7 +103,10 @@ def run(path, rlimit=None, seed=None, extra=(), timeout=1800, threads=None):
                 funcs.append(dict(function=f['function'], success=f['success'], time_us=f['time-micros'], rlimit=f['rlimit']))
     except Exception:
         pass
-    front_end_error = bool(fe) or (not vr) or vr.get('encountered-vir-error', False) or (rc != 0 and not diags and not vr.get('success', False))
+    front_end_error = bool(fe) or (not vr) or vr.get('encountered-vir-error', False) or (rc != 0 and not diags and not vr.get('success', False)) \
+        or (vr.get('verified', 0) == 0 and vr.get('errors', 0) == 0)     # nothing was checked at all: never a pass
+    if front_end_error and not fe:
+        fe.append('verus reported no verification results (verified=%s errors=%s rc=%s)' % (vr.get('verified'), vr.get('errors'), rc))
     return dict(cmd=' '.join(cmd), wall_s=wall, rc=rc, front_end_error=front_end_error, front_end_msgs=fe, diags=diags,
                 verified=vr.get('verified', 0), errors=vr.get('errors', 0), success=vr.get('success', False),
                 functions=funcs, smt_total_ms=summary.get('times-ms', {}).get('smt', {}).get('total'),
